@@ -135,16 +135,20 @@ def regen_makefile():
                        stdout=subprocess.DEVNULL, stderr=subprocess.DEVNULL)
 
 
-def make_target(target, timeout=1500, jobs=8):
+def make_target(target, timeout=1500, jobs=8, locked=False):
     """Full .vo build of one target and everything it depends on."""
-    with BuildLock():
+    def go():
         regen_makefile()
         try:
             p = subprocess.run(["timeout", str(timeout), "make", "-j%d" % jobs, target], cwd=COQ,
                                capture_output=True, text=True)
         except Exception as e:  # pragma: no cover
             return False, str(e)
-    return p.returncode == 0, (p.stdout + p.stderr)[-6000:]
+        return p.returncode == 0, (p.stdout + p.stderr)[-6000:]
+    if locked:
+        return go()
+    with BuildLock():
+        return go()
 
 
 def coqc_file(path, timeout=600):
@@ -353,29 +357,36 @@ def run_check(pid, tier, seed, repo, replay=None):
     proof_state = {"translate": "n/a", "build": None, "props": None, "gate": None}
     axioms = {}
 
-    # 1. regenerate translated models from the working tree
+    # 1. regenerate translated models from the working tree, 2. re-check the proofs.
+    # Both happen under one build lock: a concurrent check of another tree (VERIF_REPO=...) regenerates the same files.
     translate_error = None
-    if hasattr(prop, "translate"):
-        try:
-            gen = prop.translate(ctx)
-            with BuildLock():
-                for rel, text in gen.items():
-                    write_if_changed(os.path.join(COQ, rel), text)
-            proof_state["translate"] = "ok (%s)" % ", ".join(sorted(gen))
-        except TranslateError as e:
-            translate_error = str(e)
-            proof_state["translate"] = "FAILED: " + translate_error
-
-    # 2. re-check the proofs
     props_file = os.path.join(COQ, "Props", prop.PROPS + ".v")
     text, names, printed = parse_props(props_file)
     obligations = names
     discharged = 0
-    build_ok, build_log = (False, "translation failed") if translate_error else make_target("Props/%s.vo" % prop.PROPS)
-    proof_state["build"] = build_ok
     props_out = ""
+    rc = out = err = None
+    with BuildLock():
+        if hasattr(prop, "translate"):
+            try:
+                gen = prop.translate(ctx)
+                for rel, gtext in gen.items():
+                    write_if_changed(os.path.join(COQ, rel), gtext)
+                proof_state["translate"] = "ok (%s)" % ", ".join(sorted(gen))
+            except TranslateError as e:
+                translate_error = str(e)
+                proof_state["translate"] = "FAILED: " + translate_error
+        build_ok, build_log = (False, "translation failed") if translate_error else \
+            make_target("Props/%s.vo" % prop.PROPS, locked=True)
+        if build_ok:
+            rc, out, err = coqc_file(props_file)
+        gen_snapshot = None
+        if hasattr(prop, "translate") and not translate_error:
+            # the model streams of this run must be evaluated against the files generated for THIS tree
+            gen_snapshot = {rel: gtext for rel, gtext in gen.items()}
+    ctx.gen_snapshot = gen_snapshot
+    proof_state["build"] = build_ok
     if build_ok:
-        rc, out, err = coqc_file(props_file)
         props_out = out
         proof_state["props"] = (rc == 0)
         if rc == 0:
@@ -438,6 +449,12 @@ def run_check(pid, tier, seed, repo, replay=None):
         if stream.get("coq_obs"):
             # the model files are separate from the proofs, so the model still runs when a proof breaks
             mok, mlog = (True, "") if build_ok else make_target(stream.get("model_vo", "Props/%s.vo" % prop.PROPS))
+            if getattr(ctx, "gen_snapshot", None):
+                # another check (of another tree) may have regenerated the translated files meanwhile: put ours back
+                with BuildLock():
+                    stale = [rel for rel, gtext in ctx.gen_snapshot.items() if write_if_changed(os.path.join(COQ, rel), gtext)]
+                    if stale:
+                        mok, mlog = make_target(stream.get("model_vo", "Props/%s.vo" % prop.PROPS), locked=True)
             if mok:
                 t2 = time.time()
                 mism, merr = run_model(ctx, prop, stream, cases, results)
